@@ -12,7 +12,7 @@ from declib2 import fill, Dec2, gen_block, spec, model1
 from capi import Lib
 from vlib import Oracle, build_lib, hx, md5
 
-THEOREMS = ["C16_partial_exact", "C16_partial_exact_safe", "C16_trailing_bytes", "C16_no_write_beyond", "C16_no_write_beyond_usingDict"]
+THEOREMS = ["C16_partial_exact", "C16_partial_exact_safe", "C16_trailing_bytes", "C16_no_write_beyond", "C16_no_write_beyond_usingDict", "C16_partial_sound", "C16_partial_sound_safe", "C16_specified_output_valid"]
 ORACLES = ["block"]
 CORRESPONDENCE = [
     "decompress_safe_partial / partial usingDict model == LZ4_decompress_safe_partial(_usingDict) (return value, whole destination image), fast loop on",
